@@ -414,6 +414,16 @@ impl IdBook {
                 out.push(viol("interned-equal-data-two-handles", format!("phase {phase}: type {ty} data {data} has handles {prev:#x} and {id:#x}")));
             }
         }
+        // a value interned in two consecutive revisions keeps its identity (asserted for the types
+        // whose retention window is >= 2 revisions; with `revisions = 1` another value interned
+        // earlier in the new revision may legitimately take the slot first)
+        if phase == 2 && ty >= 1 {
+            if let Some(old) = self.sym_by_data.get(&(1, ty, data)) {
+                if *old != id {
+                    out.push(viol("interned-identity-not-kept", format!("type {ty} data {data}: handle {old:#x} in the first revision, {id:#x} in the next one")));
+                }
+            }
+        }
         if let Some(prev) = self.sym_by_id.insert((phase, ty, id), data) {
             if prev != data {
                 out.push(viol("interned-one-handle-two-data", format!("phase {phase}: type {ty} handle {id:#x} stands for data {prev} and {data}")));
